@@ -64,6 +64,8 @@ def run(ctx):
     quick = ctx.quick()
     # 1. the design -------------------------------------------------------------------------------------------------
     model_check(ctx, SPEC, "MC_AuthSession", "MC_AuthSession.cfg" if quick else "MC_AuthSession_thorough.cfg", timeout=3000)
+    # every interleaving of 3 concurrent presenters mixed with sequential presentations / password change / session deletion
+    model_check(ctx, SPEC, "MC_AuthSession", "MC_AuthSession_conc.cfg", timeout=3000)
     if not quick:   # the ideal (session path refuses a disabled owner) satisfies the disabled clause as well
         model_check(ctx, SPEC, "MC_AuthSession", "MC_AuthSession_ideal.cfg", timeout=3000)
     ctx.cov["exhaustive"] = True
@@ -71,6 +73,8 @@ def run(ctx):
 
     # 2. behaviours -------------------------------------------------------------------------------------------------
     seq = behaviours(ctx, SPEC, "MC_AuthSession", "Beh_AuthSession.cfg")
+    seq += behaviours(ctx, SPEC, "MC_AuthSession", "Beh_AuthSession_pw.cfg")       # credential histories (fast path before/after SetPassword, delete + re-create)
+    seq += behaviours(ctx, SPEC, "MC_AuthSession", "Beh_AuthSession_sess.cfg" if quick else "Beh_AuthSession_sess6.cfg")   # session-life histories
     conc = behaviours(ctx, SPEC, "MC_AuthSession", "Beh_AuthSession_conc.cfg")
     conc += behaviours(ctx, SPEC, "MC_AuthSession", "Beh_AuthSession_conc3.cfg", timeout=1200)
     # (TLC's simulator evaluates the exporting invariant on every successor of the last step: ~25 behaviours per trace)
@@ -160,10 +164,12 @@ def run(ctx):
     if not quick:
         rest_replay(ctx, [b["steps"] for b in sims[:400] + seq[::8]], env)
 
-    ctx.cov["rule"] = ("behaviours = every sequential history of length 4 over 1 user / 1 session / set {p1,empty} / try {p1,wrong}; every interleaving of the "
-                       "storage steps of 2 and of 3 concurrent presenters (cookie or websocket-token) of one session; seeded TLC simulations of length 7 "
-                       "over 2 users, 2 sessions, set {p1,p2,empty}, try {p1,p2,empty,wrong}; non-trivial = behaviour in which at least one authentication "
-                       "succeeded and at least one was refused on the real code")
+    ctx.cov["rule"] = ("behaviours = every sequential history of length 4 over all actions (1 user, 1 session, set {p1,empty}, try {p1,wrong}); every credential "
+                       "history of length 5 (create/set-password/disable/enable/delete/re-create x password auth, passwords {p1,p2}); every session-life history "
+                       "of length 5 (6 in thorough: create/set-password/delete/re-create user x create/delete session x cookie/one-time presentation); every "
+                       "interleaving of the storage steps of 2 and of 3 concurrent presenters (cookie or websocket-token) of one session; seeded TLC simulations "
+                       "of length 7 over 2 users, 2 sessions, set {p1,p2,empty}, try {p1,p2,empty,wrong}; non-trivial = behaviour in which at least one "
+                       "authentication succeeded and at least one was refused on the real code")
     ctx.assumptions += [
         "passwords enter only through bcrypt and string equality: p1/p2/wrong are bound to seeded strings (prefix-related, NUL, multi-byte); "
         "strings equal in their first 72 bytes and bcrypt's cyclic-key aliases are the same credential for bcrypt and are not 'wrong'",
